@@ -566,6 +566,59 @@ def c07_structure(R):
                         print(src); print('wasmtime rejects the emitted module:', str(e)[:200]); print('REPLAY-CONFIRMED')
                     """, src="export function f(int a, int b) -> int { return (a + b); }" if k == 1 else
                     "function g(int a) -> int { return (a + 1); }\nfunction g(float a) -> float { return (a + a); }\nexport function f(int a, int b) -> int { return (a + b); }"))
+    # every function's declared type is ITS signature: parameters and results (functions that agree in the parameters but not in the result
+    # must not share a type entry), for every pair and triple of signatures over {int, float} parameters and {int, float, void} results
+    sigs = [(ps, r) for ps in ((), ("i",), ("f",), ("i", "f")) for r in ("i", "f", "v")]
+    RT_ = {"i": ir.IntegerType, "f": ir.FloatType, "v": ir.VoidType}
+    for combo in itertools.chain(itertools.permutations(sigs, 2), [(sigs[0], sigs[1], sigs[2]), (sigs[5], sigs[3], sigs[4]), (sigs[9], sigs[11], sigs[10])]):
+        m = ir.Module()
+        want = []
+        for j, (ps, r) in enumerate(combo):
+            f = m.CreateFunction(f"fn{j}", ir.FunctionType(RT_[r](), collections.OrderedDict((f"a{q}", RT_[t]()) for q, t in enumerate(ps))))
+            bb = f.CreateBasicBlock()
+            if r == "v":
+                bb.AddInstruction(ir.ReturnInstruction())
+            elif r in ps:
+                ld = bb.AddInstruction(ir.VariableAccessInstruction(RT_[r](), ps.index(r), ir.VariableAccessScope.FUNCTION_ARGUMENT))
+                bb.AddInstruction(ir.ReturnInstruction(ld))
+            else:
+                cst = f.CreateConstant(ir.IntegerType(), 1)
+                bb.AddInstruction(ir.ReturnInstruction(cst))
+            want.append(([VT.i32 if t == "i" else VT.f32 for t in ps], [] if r == "v" else [VT.i32 if r == "i" else VT.f32]))
+        g, vis, ctx = new_gen()
+        label = " ; ".join(f"({','.join(ps)})->{r}" for ps, r in combo)
+        try:
+            vis.Visit(m)
+            mod = vis.Finalize()
+        except Exception as e:
+            # a refusal is fine here (e.g. a float function returning the int constant 1); what must not happen is a module whose types are wrong
+            R.ok(f"C07.signatures[{label}]", GW + "::GenerateWasmVisitor.v_Function", detail=f"refused: {type(e).__name__}")
+            continue
+        types = getpriv(getpriv(mod, "Module", "__typesec"), "TypeSection", "__types")
+        funcs = getpriv(getpriv(mod, "Module", "__funcsec"), "FunctionSection", "__indices")
+        got = []
+        for t in funcs:
+            ft = types[t] if 0 <= t < len(types) else None
+            got.append((list(ft.Arguments), list(getpriv(ft, "FunctionType", "__returnTypes"))) if ft is not None else None)
+        R.check(f"C07.signatures[{label}]", GW + "::GenerateWasmVisitor.v_Function", got == want,
+                detail=f"declared types of the functions {[(None if x is None else ([a.name for a in x[0]], [a.name for a in x[1]])) for x in got]}, their signatures {[([a.name for a in x[0]], [a.name for a in x[1]]) for x in want]}",
+                replay=script("""
+                    import io, contextlib
+                    from nsl import Compiler
+                    import wasmtime
+                    src = 'export function f0(int a) -> int { return (a + a); }\nexport function f1(int a) -> void { }\nexport function f2(int a) -> int { return a; }'
+                    with contextlib.redirect_stdout(io.StringIO()):
+                        r = Compiler.Compiler().Compile(src, {'wasm': True})
+                    out = io.BytesIO(); r.WasmModule.WriteTo(out)
+                    try:
+                        wasmtime.Module.validate(wasmtime.Engine(), out.getvalue())
+                        m = wasmtime.Module(wasmtime.Engine(), out.getvalue())
+                        tys = {e.name: (len(e.type.params), len(e.type.results)) for e in m.exports}
+                        print(src, tys)
+                        if tys != {'f0': (1, 1), 'f1': (1, 0), 'f2': (1, 1)}: print('REPLAY-CONFIRMED')
+                    except Exception as e:
+                        print(src); print('wasmtime rejects the emitted module:', str(e)[:200]); print('REPLAY-CONFIRMED')
+                    """))
     # writers are read-only: writing a module twice gives the same bytes and leaves every object as it was
     import io as _io
     c = w.Code()
